@@ -686,6 +686,19 @@ void check_extract(vh::Case &c, const ExtractIn &in)
   VH_CHECK(c, c_locale, "harness precondition: LC_CTYPE is not the C locale");
   Ref r = in.tp_present ? ref_parse(in.tp) : reject("absent");
   Caller caller = make_caller(in.caller_kind);
+  // State carried between calls: the caller's context already holds a span with the SAME trace id, span id and
+  // flags as the header about to be extracted - but local and with another trace state (the same request seen
+  // twice, Inject followed by Extract on one context).  SpanContext::operator== ignores is_remote and the trace
+  // state, so an Extract that "recognises" the context must still install the remote one.  Decided from the
+  // header's own bytes, no stream byte is read.  (Seeded C09-m11.)
+  if ((in.caller_kind & 3) == 1 && r.verdict == kAccept && (r.tid[15] & 1))
+  {
+    caller.span = nostd::shared_ptr<trace::Span>(new trace::DefaultSpan(
+        trace::SpanContext(trace::TraceId(r.tid), trace::SpanId(r.sid), trace::TraceFlags(r.flags), false,
+                           trace::TraceState::FromHeader("stale=1"))));
+    caller.ctx = context::Context(trace::kSpanKey, caller.span);
+    caller.cls = "caller-same-identity-local-span";
+  }
   c.tag(caller.cls);
 
   std::unique_ptr<Carrier> carrier(new Carrier(in.null_when_absent));
